@@ -320,3 +320,27 @@ def make_uni(fix: bool):
                      c: CT = 0, d: DT = None) -> None:           # type: ignore
             self.a, self.b, self.c, self.d = a, b, c, d
     return Uni, Sub
+
+
+# ------------------------------------- C02: declarative seasoning, dashes
+class Item:
+    def __init__(self, item_id: str, price: float,
+                 description: Optional[str] = None) -> None:
+        T(self, locals())
+        self.item_id, self.price, self.description = (
+            item_id, price, description)
+
+
+class Order:
+    def __init__(self, customer_name: str, items: List[Item],
+                 note: str = 'none', rush: bool = False,
+                 _yatiml_extra: Optional[OrderedDict] = None) -> None:
+        T(self, locals())
+        self.customer_name, self.items = customer_name, items
+        self.note, self.rush = note, rush
+        self._yatiml_extra = _yatiml_extra
+
+    @classmethod
+    def _yatiml_savorize(cls, node: yatiml.Node) -> None:
+        node.dashes_to_unders_in_keys()
+        node.map_attribute_to_seq('items', 'item_id', 'price')
